@@ -1007,8 +1007,15 @@ ssize_t qlisttbl_load(qlisttbl_t *tbl, const char *filepath, char sepchar,
         if (decode == true) qurl_decode(data);
 
         // add to the table.
+        errno = 0;
         if (qlisttbl_put(tbl, name, data, strlen(data) + 1) == true) {
             cnt++;
+        } else if (errno == ENOMEM) {
+            // do not report a short count as success
+            free(name);
+            free(data);
+            cnt = -1;
+            break;
         }
 
         free(name);
